@@ -50,6 +50,10 @@ claim('C13', 'Proof on the real RollLog.write / new_logfile / prune_logfiles ove
 claim('C14', 'Proof on the real RollLog.write_head (crash invariant asserted after EVERY file-system call: the head file holds the previous or the new position), close, tell (position of '
       'the next unread byte), __init__ restart (exactly a [str, int] record is accepted, anything else raises before the position is used) and seek (reopen at the saved offset / first '
       'existing larger file / end; a file deleted in the meantime is skipped forward only), for 0..3 log files with symbolic stamps and offsets; no-skip lemma over these specifications.', '6-C14')
+claim('C15', 'Proof (taint argument by symbolic execution of the real code, masker = uninterpreted function) that every string reaching the start-up log line, the lineage START facets, '
+      'log lines and exception messages of VideoReader.__init__ / VideoWriter.__init__ + new_writer, and the frame metadata meta.src went through hide_uri_users_and_pwds: structural '
+      'induction on the real recursive walk hide_config_pwds (every node kind: str, list, tuple, FilterConfig, nested dict, per-source record), hence every nesting depth. '
+      'That the masker itself hides the credential is a BOUNDED exhaustive enumeration over the RFC 3986 grammar (labelled bounded, not proved).', '6-C15')
 _todo = 'check not built yet in this session (planned, see DESIGN.md section 6); not claimed until its obligations are discharged'
 for _p in ( 'C11', 'C12', 'C15'):
     NA[_p] = _todo
